@@ -11,6 +11,7 @@ import DM.Drv.Api
 import DM.Drv.Prune
 import DM.Drv.EncRun
 import DM.Drv.Plan
+import DM.Drv.OptDiff
 import DM.Props.C04
 open DM.Drv
 
@@ -49,6 +50,9 @@ def dispatch (args : List String) : String :=
   | some r => r
   | none =>
   match optimizeOp args with
+  | some r => r
+  | none =>
+  match optDiffOp args with
   | some r => r
   | none => "bad-op"
 
